@@ -17,6 +17,7 @@
 package vsched
 
 import (
+	"reflect"
 	"runtime"
 	"runtime/debug"
 	"sort"
@@ -133,6 +134,7 @@ type Sched struct {
 	objs     []uintptr // object numbering in publication order
 	Nondet   string
 	chClosed []uintptr
+	pinned   []reflect.Value
 	cum      uint64
 }
 
@@ -373,11 +375,15 @@ func (s *Sched) schedule(t *thread) {
 			if i > 0 {
 				b.WriteByte(' ')
 			}
+			// Labels identify thread, operation kind and the static operation name, not the
+			// object: object numbers are derived from addresses, and an address can be reused
+			// for another short-lived object depending on when the collector runs, which would
+			// make the determinism guard raise a false "diverged" error.
 			b.WriteString(strconv.Itoa(u.id))
 			b.WriteByte(':')
 			b.WriteString(u.pend.kind.String())
-			b.WriteByte('#')
-			b.WriteString(strconv.Itoa(s.objID(u.pend.obj)))
+			b.WriteByte('/')
+			b.WriteString(u.pend.label)
 		}
 		choice = s.decide(len(enabled), runEn, false, false, b.String(), t.id)
 		if s.over {
